@@ -5,6 +5,12 @@ HERE = os.path.dirname(os.path.dirname(os.path.abspath(__file__)))
 ALL = ["C%02d" % i for i in range(1, 21)]
 
 CHECKS = {
+ "C06": dict(
+   level="exploration",
+   technique="runtime monitoring of the real amm.Deposit / Withdraw / CreateRangedPool / Price on an exhaustively enumerated small domain plus wide seeded inputs to 10^40, exact big.Int/big.Rat oracles; in-situ checks on reserve balances and pool-coin supply around executed requests",
+   text="Exhaustive domain (all reserves/shares/offers <= 8 quick, <= 12 thorough, also scaled by 10^9..10^30, fees {0,0.003,0.5}) and ~1M random cases per quick run: deposit takes <= offered, reserves per share never fall by more than 10^-17 relative, withdrawal <= pro-rata*(1-fee), last shares return whole reserves, ranged pool price within [min,max] over grid and random (min,max,initial) triples incl. one-sided pools; the same laws on bank balances around keeper ExecuteDepositRequest/ExecuteWithdrawRequest.",
+   note="The share-rate clause is decided in the statement's own tolerance form (reserve per share does not fall by more than 1e-17 relative). Division-by-zero panics of pool constructors on extreme admissible triples are counted, not judged (the statement does not forbid them).",
+   design="§4 C06"),
  "C19": dict(
    level="exploration",
    technique="runtime monitoring: exhaustive enumeration of the real epoch-split function for n<=64 plus in-situ monitors on gauges / farmers / custody after every block of a seeded farming workload (exact big.Rat share oracle)",
